@@ -56,8 +56,44 @@ def fmtProc (q : Proc) : String :=
 
 def junk0 : Junk := { instr := 0, mem := Mem.zero, exitCode := 0, instrEnum := 0 }
 
+def handleSteps (k : Nat) (pc a b o trunc mem stdin : String) (rest : List String) : String :=
+    let inBytes := unhex stdin
+    let files := match rest with | f :: _ => parseFiles f | [] => fun _ => []
+    let io := Isa.IOSt.init inBytes files
+    let base := parseMem mem Mem.zero
+    let p : Proc := { Proc.mk' junk0 io k with
+      pc := word pc, areg := word a, breg := word b, oreg := word o, memory := base,
+      truncateInputs := trunc = "1", cycles := 1 }
+    match Sim.run (k + 2) p with
+    | .returned c q =>
+      s!"ok {if q.running then "run" else "exit"} {fmtProc q} {natToHex c.toNat} {q.cycles} {memDiff base q.memory} {tohex (stdoutOf q.io)} {inBytes.length - q.io.stdin.length} {outFiles q.io}"
+    | .threw m _ => s!"throw {throwKind m} -"
+    | .faulted _ _ => "fault oob"
+    | .outOfFuel _ => "model-out-of-fuel"
+
+/-- The ISA itself run for `k` instructions from a planted state (oracle for `steps`). -/
+def isaSteps (k : Nat) (pc a b o mem stdin : String) (rest : List String) : String :=
+    let inBytes := unhex stdin
+    let files := match rest with | f :: _ => parseFiles f | [] => fun _ => []
+    let io := Isa.IOSt.init inBytes files
+    let base := parseMem mem Mem.zero
+    let s : Isa.St := { pc := word pc, a := word a, b := word b, o := word o, mem := base }
+    let fmt (kind : String) (c : Word) (n : Nat) (s' : Isa.St) (io' : Isa.IOSt) : String :=
+      s!"ok {kind} {natToHex s'.pc.toNat} {natToHex s'.a.toNat} {natToHex s'.b.toNat} {natToHex s'.o.toNat} {natToHex c.toNat} {n + 1} {memDiff base s'.mem} {tohex (stdoutOf io')} {inBytes.length - io'.stdin.length} {outFiles io'}"
+    match Isa.run k s io with
+    | .outOfFuel s' io' => fmt "run" 0 k s' io'
+    | .exited c n s' io' => fmt "exit" c n s' io'
+    | .undef .outOfRange _ => "undef outOfRange"
+    | .undef .badOpcode _ => "undef badOpcode"
+    | .undef .badOpr _ => "undef badOpr"
+    | .undef .badSvc _ => "undef badSvc"
+
 def handle (line : String) : String :=
   match line.splitOn " " with
+  | "steps" :: k :: pc :: a :: b :: o :: trunc :: mem :: stdin :: rest =>
+    handleSteps k.toNat! pc a b o trunc mem stdin rest
+  | "isasteps" :: k :: pc :: a :: b :: o :: _trunc :: mem :: stdin :: rest =>
+    isaSteps k.toNat! pc a b o mem stdin rest
   | "step" :: pc :: a :: b :: o :: trunc :: mem :: stdin :: rest =>
     let inBytes := unhex stdin
     let files := match rest with | f :: _ => parseFiles f | [] => fun _ => []
